@@ -179,6 +179,8 @@ def judge(cfg, obs, deviations):
             S = t
             first_reset_seen = True
         elif what == 'pause_for-enter':
+            if S is None:
+                return ('time-line-not-restarted-at-script-start', 'a delay was requested before the clock was reset for this run')
             if k >= len(expected) or expected[k][0] != 'd':
                 return ('unexpected-delay-request', 'event %d: %r' % (i, ev[i]))
             d = expected[k][1]
